@@ -108,4 +108,29 @@ def OnCycle {α : Type} (r : α → α → Prop) (v : α) : Prop := TC r v v
 
 def Edge (deps : List (Name × List Name)) (a b : Name) : Prop := b ∈ succ deps a
 
+/-! ### duplicate response enums (postprocess/response_enum.rs): operations with the same response signature
+share ONE response enum — the canonical one (shortest name, then alphabetical); the others are removed from the
+type list by index -/
+
+def strLe : List Char → List Char → Bool
+  | [], _ => true
+  | _ :: _, [] => false
+  | a :: r, b :: s => if a.toNat < b.toNat then true else if b.toNat < a.toNat then false else strLe r s
+
+/-- `a.name.len().cmp(&b.name.len()).then(a.name.cmp(&b.name))` -/
+def nameLe (a b : Name) : Bool := a.length < b.length || (a.length == b.length && strLe a b)
+
+def canonicalOf : List Name → Option Name
+  | [] => none
+  | n :: r => match canonicalOf r with
+    | none => some n
+    | some m => if nameLe n m then some n else some m
+
+/-- (enum name, signature) of every selected operation ↦ the enum names that stay -/
+def dedupSurvivors (ops : List (Name × Name)) : List Name :=
+  (ops.filter fun p => canonicalOf ((ops.filter fun q => q.2 == p.2).map (·.1)) == some p.1).map (·.1)
+
+/-- removal by index, one after the other, in the given order (`types.remove(idx)`) -/
+def removeIdxs {α : Type} (idxs : List Nat) (l : List α) : List α := idxs.foldl (fun acc i => acc.eraseIdx i) l
+
 end Oas3.Graph
